@@ -777,12 +777,17 @@ impl BuiltInFunction {
                     format!("`{power}` is an invalid power for int bases (valid >= 0)")
                 })?;
 
-                let result: Primitive = match this {
-                    Primitive::Int(i32) => Primitive::BigInt(i32.pow(power_non_fp) as i128),
-                    Primitive::BigInt(i128) => Primitive::BigInt(i128.pow(power_non_fp)),
-                    Primitive::Byte(u8) => Primitive::BigInt(u8.pow(power_non_fp) as i128),
+                let base: i128 = match this {
+                    Primitive::Int(i32) => (*i32).into(),
+                    Primitive::BigInt(i128) => *i128,
+                    Primitive::Byte(u8) => (*u8).into(),
                     bad => unreachable!("{bad}"),
                 };
+
+                let result = Primitive::BigInt(
+                    base.checked_pow(power_non_fp)
+                        .with_context(|| format!("numeric overflow: {base}.pow({power})"))?,
+                );
 
                 Ok((Some(result), None))
             }
@@ -908,8 +913,14 @@ impl BuiltInFunction {
                 };
 
                 let result: Primitive = match this {
-                    Primitive::Int(i32) => Primitive::Int(i32.abs()),
-                    Primitive::BigInt(i128) => Primitive::BigInt(i128.abs()),
+                    Primitive::Int(i32) => Primitive::Int(
+                        i32.checked_abs()
+                            .with_context(|| format!("numeric overflow: {i32}.abs()"))?,
+                    ),
+                    Primitive::BigInt(i128) => Primitive::BigInt(
+                        i128.checked_abs()
+                            .with_context(|| format!("numeric overflow: {i128}.abs()"))?,
+                    ),
                     Primitive::Byte(u8) => Primitive::Byte(*u8),
                     Primitive::Float(f64) => Primitive::Float(f64.abs()),
                     bad => unreachable!("{bad}"),
